@@ -195,6 +195,9 @@ class CodeGen:
         if ((self.stack_size + 5) * self.word_size) > self.max_signed:
             raise CodeGenError('Stack size too large', ())
 
+        if self.stack_size < 0:
+            raise CodeGenError('Stack size must not be negative', ())
+
         is_you = self.env.funcs.get(ast.Ident.you('is_you'), {})
 
         if not is_you:
